@@ -68,6 +68,8 @@ def binop(op, l, r):
             return "TA"
         if a == "TX" and b == "T0" or (isinstance(op, ast.Mult) and a == "T0" and b == "TX"):
             return "TX"
+        if isinstance(op, ast.Mult) and {a, b} == {"T0", "T1"}:
+            return "P01"     # invariant * position, entry by entry: summed over the coordinate axis it is the functional n . p
         return None      # position * weight: a weighted sum may normalise later
     if isinstance(op, ast.Pow):
         if a == "T0" and b == "T0":
@@ -83,13 +85,18 @@ def binop(op, l, r):
 def combine(vals):
     """type of a vector assembled from the given entries (concatenate / array display)."""
     ts = []
+    literal = False
     for v in vals:
         if v is None:
             return None
         if v.items is not None and v.kind in ("list", "tuple"):
+            if v.items and all(i_ is not None and i_.is_number_const() for i_ in v.items):
+                literal = True
+                continue
             t = combine(v.items)
         elif v.is_number_const():
-            continue                       # a literal entry is compatible with every type
+            literal = True
+            continue                       # a literal entry is compatible with T0 and T1 (padding); with TA see below
         else:
             t = tr_of(v)
         if t is None or t == "EQ":
@@ -100,6 +107,10 @@ def combine(vals):
         return "T1"          # positions padded with a zero column / row stay positions
     if not s:
         return "T0"
+    if s == {"TA"} and literal:
+        # functionals n_i . p next to a literal entry: under a translation the former change by n_i . t, the latter does not -
+        # as the right-hand side of a linear system this is a mixed vector (the literal row pins the solution to the origin)
+        return "MIX"
     if len(s) == 1:
         return next(iter(s))
     if s <= {"T0", "TA", "MIX"}:
@@ -163,6 +174,11 @@ def call(name, args, kwargs, result):
         others = [tr_of(a) for a in args if a is not None and a.kind not in ("str",)]
         if others and all(t == "T0" for t in others):
             return "T0"
+        if name == "sum" and t0 == "P01":
+            ax = kwargs.get("axis", a1)
+            if ax is not None and ax.has_const() and ax.const in (-1, 1) and a0.kind == "arr":
+                return "TA"      # sum over the coordinates of n_i * p_i: the row-wise dot product
+            return None
         if name == "mean" and t0 == "T1":
             ax = kwargs.get("axis", a1)
             return "T1" if ax is not None else None
